@@ -19,8 +19,12 @@ Inductive res (K : Type) : Type :=
 | RBool (b : bool)
 | RIter (i : iter K)
 | RVal (v : Z)
-| RKey (k : K).
+| RKey (k : K)
+| RWalk (w : option (list (K * Z))).  (* a whole traversal through iterators: the key:value pairs in the order visited;
+                                         None = the traversal does not come to its end (null pointer / no such item / more
+                                         steps than there are items) *)
 Arguments RNone {K}. Arguments RPre {K}. Arguments RBool {K}. Arguments RIter {K}. Arguments RVal {K}. Arguments RKey {K}.
+Arguments RWalk {K}.
 
 (* x, y : container variables of the history; pos/rank : iterators named by their rank
    (rank = size is end()); k : key; v : value *)
@@ -46,12 +50,15 @@ Inductive op (K : Type) : Type :=
 | OEq (x y : nat)                        (* x == y *)
 | OAppendAll (x y : nat)                 (* HashSet::append(const HashSet&) *)
 | ORemoveAll (x y : nat)                 (* HashSet::remove(const HashSet&) *)
-| OSetVal (x : nat) (k : K) (v : Z).     (* *find(k) = v  (mutable access through the iterator) *)
+| OSetVal (x : nat) (k : K) (v : Z)      (* *find(k) = v  (mutable access through the iterator) *)
+| OIterFwd (x : nat)                     (* for(it = begin(); it != end(); ++it) visit(it)   - through operator++ *)
+| OIterBack (x : nat).                   (* for(it = end(); it != begin(); ) { --it; visit(it); }   - through operator-- *)
 Arguments ONew {K}. Arguments ONewDefault {K}. Arguments OFind {K}. Arguments OContains {K}.
 Arguments OInsert {K}. Arguments OAppend {K}. Arguments OPrepend {K}. Arguments ORemoveKey {K}.
 Arguments ORemoveAt {K}. Arguments ORemoveVal {K}. Arguments ORemoveFront {K}. Arguments ORemoveBack {K}.
 Arguments OClear {K}. Arguments OSwap {K}. Arguments OFront {K}. Arguments OBack {K}. Arguments OCopy {K}.
 Arguments OAssign {K}. Arguments OEq {K}. Arguments OAppendAll {K}. Arguments ORemoveAll {K}. Arguments OSetVal {K}.
+Arguments OIterFwd {K}. Arguments OIterBack {K}.
 
 (* which member functions exist for which container *)
 Definition op_allowed {K} (kd : kind) (o : op K) : bool :=
